@@ -1286,4 +1286,170 @@ def presAddPc : Pc → Bool
 @[simp] theorem presAddPc_afterChecks (t : Thread) : presAddPc (afterChecks t) = t.opts.presence := by
   unfold afterChecks; cases t.opts.presence <;> simp <;> split <;> rfl
 
+def preJoinPc : Pc → Bool
+  | .sOnSub | .sReadGen | .sCheck1 | .sHubAdd | .sCheck2 | .sPresAdd | .sReply | .sCommit | .sCloseGate | .sDpf | .sPush | .sJoin => true
+  | _ => false
+@[simp] theorem preJoinPc_sReserve : preJoinPc .sReserve = false := rfl
+@[simp] theorem preJoinPc_sOnSub : preJoinPc .sOnSub = true := rfl
+@[simp] theorem preJoinPc_sReadGen : preJoinPc .sReadGen = true := rfl
+@[simp] theorem preJoinPc_sCheck1 : preJoinPc .sCheck1 = true := rfl
+@[simp] theorem preJoinPc_sHubAdd : preJoinPc .sHubAdd = true := rfl
+@[simp] theorem preJoinPc_sCheck2 : preJoinPc .sCheck2 = true := rfl
+@[simp] theorem preJoinPc_sPresAdd : preJoinPc .sPresAdd = true := rfl
+@[simp] theorem preJoinPc_sReply : preJoinPc .sReply = true := rfl
+@[simp] theorem preJoinPc_sCommit : preJoinPc .sCommit = true := rfl
+@[simp] theorem preJoinPc_sRbHub : preJoinPc .sRbHub = false := rfl
+@[simp] theorem preJoinPc_sRbPres : preJoinPc .sRbPres = false := rfl
+@[simp] theorem preJoinPc_sRbClose : preJoinPc .sRbClose = false := rfl
+@[simp] theorem preJoinPc_sCloseGate : preJoinPc .sCloseGate = true := rfl
+@[simp] theorem preJoinPc_sDpf : preJoinPc .sDpf = true := rfl
+@[simp] theorem preJoinPc_sPush : preJoinPc .sPush = true := rfl
+@[simp] theorem preJoinPc_sJoin : preJoinPc .sJoin = true := rfl
+@[simp] theorem preJoinPc_sDeferPres : preJoinPc .sDeferPres = false := rfl
+@[simp] theorem preJoinPc_sErrDel : preJoinPc .sErrDel = false := rfl
+@[simp] theorem preJoinPc_sErrHub : preJoinPc .sErrHub = false := rfl
+@[simp] theorem preJoinPc_sErrClose : preJoinPc .sErrClose = false := rfl
+@[simp] theorem preJoinPc_sErrOut : preJoinPc .sErrOut = false := rfl
+@[simp] theorem preJoinPc_uStatus : preJoinPc .uStatus = false := rfl
+@[simp] theorem preJoinPc_uSnap : preJoinPc .uSnap = false := rfl
+@[simp] theorem preJoinPc_uWait : preJoinPc .uWait = false := rfl
+@[simp] theorem preJoinPc_uTmoLog : preJoinPc .uTmoLog = false := rfl
+@[simp] theorem preJoinPc_uRemove : preJoinPc .uRemove = false := rfl
+@[simp] theorem preJoinPc_uPresRm : preJoinPc .uPresRm = false := rfl
+@[simp] theorem preJoinPc_uLeave : preJoinPc .uLeave = false := rfl
+@[simp] theorem preJoinPc_uHubRm : preJoinPc .uHubRm = false := rfl
+@[simp] theorem preJoinPc_uOnUnsub : preJoinPc .uOnUnsub = false := rfl
+@[simp] theorem preJoinPc_uOut : preJoinPc .uOut = false := rfl
+@[simp] theorem preJoinPc_cEnter : preJoinPc .cEnter = false := rfl
+@[simp] theorem preJoinPc_cRemoveClient : preJoinPc .cRemoveClient = false := rfl
+@[simp] theorem preJoinPc_cDpf : preJoinPc .cDpf = false := rfl
+@[simp] theorem preJoinPc_cWriter : preJoinPc .cWriter = false := rfl
+@[simp] theorem preJoinPc_cTClose : preJoinPc .cTClose = false := rfl
+@[simp] theorem preJoinPc_cLoop : preJoinPc .cLoop = false := rfl
+@[simp] theorem preJoinPc_cOnDisc : preJoinPc .cOnDisc = false := rfl
+@[simp] theorem preJoinPc_cExit : preJoinPc .cExit = false := rfl
+@[simp] theorem preJoinPc_done : preJoinPc .done = false := rfl
+@[simp] theorem preJoinPc_ite (c : Prop) [Decidable c] (a b : Pc) :
+    preJoinPc (if c then a else b) = if c then preJoinPc a else preJoinPc b := apply_ite preJoinPc c a b
+@[simp] theorem preJoinPc_unsubRetPc (k : Kind) : preJoinPc (unsubRetPc k) = false := by
+  cases k <;> rfl
+@[simp] theorem preJoinPc_afterRemove (c : Entry) : preJoinPc (afterRemove c) = false := by
+  unfold afterRemove; split <;> (try split) <;> rfl
+@[simp] theorem preJoinPc_afterCmdFail (t : Thread) : preJoinPc (afterCmdFail t) = false := by
+  unfold afterCmdFail; split <;> rfl
+@[simp] theorem preJoinPc_afterChecks (t : Thread) : preJoinPc (afterChecks t) = true := by
+  unfold afterChecks; split <;> (try split) <;> rfl
+@[simp] theorem preJoinPc_afterPres (t : Thread) : preJoinPc (afterPres t) = true := by
+  unfold afterPres; split <;> rfl
+
+def preLeavePc : Pc → Bool
+  | .uPresRm | .uLeave => true
+  | _ => false
+@[simp] theorem preLeavePc_sReserve : preLeavePc .sReserve = false := rfl
+@[simp] theorem preLeavePc_sOnSub : preLeavePc .sOnSub = false := rfl
+@[simp] theorem preLeavePc_sReadGen : preLeavePc .sReadGen = false := rfl
+@[simp] theorem preLeavePc_sCheck1 : preLeavePc .sCheck1 = false := rfl
+@[simp] theorem preLeavePc_sHubAdd : preLeavePc .sHubAdd = false := rfl
+@[simp] theorem preLeavePc_sCheck2 : preLeavePc .sCheck2 = false := rfl
+@[simp] theorem preLeavePc_sPresAdd : preLeavePc .sPresAdd = false := rfl
+@[simp] theorem preLeavePc_sReply : preLeavePc .sReply = false := rfl
+@[simp] theorem preLeavePc_sCommit : preLeavePc .sCommit = false := rfl
+@[simp] theorem preLeavePc_sRbHub : preLeavePc .sRbHub = false := rfl
+@[simp] theorem preLeavePc_sRbPres : preLeavePc .sRbPres = false := rfl
+@[simp] theorem preLeavePc_sRbClose : preLeavePc .sRbClose = false := rfl
+@[simp] theorem preLeavePc_sCloseGate : preLeavePc .sCloseGate = false := rfl
+@[simp] theorem preLeavePc_sDpf : preLeavePc .sDpf = false := rfl
+@[simp] theorem preLeavePc_sPush : preLeavePc .sPush = false := rfl
+@[simp] theorem preLeavePc_sJoin : preLeavePc .sJoin = false := rfl
+@[simp] theorem preLeavePc_sDeferPres : preLeavePc .sDeferPres = false := rfl
+@[simp] theorem preLeavePc_sErrDel : preLeavePc .sErrDel = false := rfl
+@[simp] theorem preLeavePc_sErrHub : preLeavePc .sErrHub = false := rfl
+@[simp] theorem preLeavePc_sErrClose : preLeavePc .sErrClose = false := rfl
+@[simp] theorem preLeavePc_sErrOut : preLeavePc .sErrOut = false := rfl
+@[simp] theorem preLeavePc_uStatus : preLeavePc .uStatus = false := rfl
+@[simp] theorem preLeavePc_uSnap : preLeavePc .uSnap = false := rfl
+@[simp] theorem preLeavePc_uWait : preLeavePc .uWait = false := rfl
+@[simp] theorem preLeavePc_uTmoLog : preLeavePc .uTmoLog = false := rfl
+@[simp] theorem preLeavePc_uRemove : preLeavePc .uRemove = false := rfl
+@[simp] theorem preLeavePc_uPresRm : preLeavePc .uPresRm = true := rfl
+@[simp] theorem preLeavePc_uLeave : preLeavePc .uLeave = true := rfl
+@[simp] theorem preLeavePc_uHubRm : preLeavePc .uHubRm = false := rfl
+@[simp] theorem preLeavePc_uOnUnsub : preLeavePc .uOnUnsub = false := rfl
+@[simp] theorem preLeavePc_uOut : preLeavePc .uOut = false := rfl
+@[simp] theorem preLeavePc_cEnter : preLeavePc .cEnter = false := rfl
+@[simp] theorem preLeavePc_cRemoveClient : preLeavePc .cRemoveClient = false := rfl
+@[simp] theorem preLeavePc_cDpf : preLeavePc .cDpf = false := rfl
+@[simp] theorem preLeavePc_cWriter : preLeavePc .cWriter = false := rfl
+@[simp] theorem preLeavePc_cTClose : preLeavePc .cTClose = false := rfl
+@[simp] theorem preLeavePc_cLoop : preLeavePc .cLoop = false := rfl
+@[simp] theorem preLeavePc_cOnDisc : preLeavePc .cOnDisc = false := rfl
+@[simp] theorem preLeavePc_cExit : preLeavePc .cExit = false := rfl
+@[simp] theorem preLeavePc_done : preLeavePc .done = false := rfl
+@[simp] theorem preLeavePc_ite (c : Prop) [Decidable c] (a b : Pc) :
+    preLeavePc (if c then a else b) = if c then preLeavePc a else preLeavePc b := apply_ite preLeavePc c a b
+@[simp] theorem preLeavePc_unsubRetPc (k : Kind) : preLeavePc (unsubRetPc k) = false := by
+  cases k <;> rfl
+@[simp] theorem preLeavePc_afterCmdFail (t : Thread) : preLeavePc (afterCmdFail t) = false := by
+  unfold afterCmdFail; split <;> rfl
+@[simp] theorem preLeavePc_afterChecks (t : Thread) : preLeavePc (afterChecks t) = false := by
+  unfold afterChecks; split <;> (try split) <;> rfl
+@[simp] theorem preLeavePc_afterPres (t : Thread) : preLeavePc (afterPres t) = false := by
+  unfold afterPres; split <;> rfl
+
+def postCommitPc : Pc → Bool
+  | .sCloseGate | .sDpf | .sPush | .sJoin => true
+  | _ => false
+@[simp] theorem postCommitPc_sReserve : postCommitPc .sReserve = false := rfl
+@[simp] theorem postCommitPc_sOnSub : postCommitPc .sOnSub = false := rfl
+@[simp] theorem postCommitPc_sReadGen : postCommitPc .sReadGen = false := rfl
+@[simp] theorem postCommitPc_sCheck1 : postCommitPc .sCheck1 = false := rfl
+@[simp] theorem postCommitPc_sHubAdd : postCommitPc .sHubAdd = false := rfl
+@[simp] theorem postCommitPc_sCheck2 : postCommitPc .sCheck2 = false := rfl
+@[simp] theorem postCommitPc_sPresAdd : postCommitPc .sPresAdd = false := rfl
+@[simp] theorem postCommitPc_sReply : postCommitPc .sReply = false := rfl
+@[simp] theorem postCommitPc_sCommit : postCommitPc .sCommit = false := rfl
+@[simp] theorem postCommitPc_sRbHub : postCommitPc .sRbHub = false := rfl
+@[simp] theorem postCommitPc_sRbPres : postCommitPc .sRbPres = false := rfl
+@[simp] theorem postCommitPc_sRbClose : postCommitPc .sRbClose = false := rfl
+@[simp] theorem postCommitPc_sCloseGate : postCommitPc .sCloseGate = true := rfl
+@[simp] theorem postCommitPc_sDpf : postCommitPc .sDpf = true := rfl
+@[simp] theorem postCommitPc_sPush : postCommitPc .sPush = true := rfl
+@[simp] theorem postCommitPc_sJoin : postCommitPc .sJoin = true := rfl
+@[simp] theorem postCommitPc_sDeferPres : postCommitPc .sDeferPres = false := rfl
+@[simp] theorem postCommitPc_sErrDel : postCommitPc .sErrDel = false := rfl
+@[simp] theorem postCommitPc_sErrHub : postCommitPc .sErrHub = false := rfl
+@[simp] theorem postCommitPc_sErrClose : postCommitPc .sErrClose = false := rfl
+@[simp] theorem postCommitPc_sErrOut : postCommitPc .sErrOut = false := rfl
+@[simp] theorem postCommitPc_uStatus : postCommitPc .uStatus = false := rfl
+@[simp] theorem postCommitPc_uSnap : postCommitPc .uSnap = false := rfl
+@[simp] theorem postCommitPc_uWait : postCommitPc .uWait = false := rfl
+@[simp] theorem postCommitPc_uTmoLog : postCommitPc .uTmoLog = false := rfl
+@[simp] theorem postCommitPc_uRemove : postCommitPc .uRemove = false := rfl
+@[simp] theorem postCommitPc_uPresRm : postCommitPc .uPresRm = false := rfl
+@[simp] theorem postCommitPc_uLeave : postCommitPc .uLeave = false := rfl
+@[simp] theorem postCommitPc_uHubRm : postCommitPc .uHubRm = false := rfl
+@[simp] theorem postCommitPc_uOnUnsub : postCommitPc .uOnUnsub = false := rfl
+@[simp] theorem postCommitPc_uOut : postCommitPc .uOut = false := rfl
+@[simp] theorem postCommitPc_cEnter : postCommitPc .cEnter = false := rfl
+@[simp] theorem postCommitPc_cRemoveClient : postCommitPc .cRemoveClient = false := rfl
+@[simp] theorem postCommitPc_cDpf : postCommitPc .cDpf = false := rfl
+@[simp] theorem postCommitPc_cWriter : postCommitPc .cWriter = false := rfl
+@[simp] theorem postCommitPc_cTClose : postCommitPc .cTClose = false := rfl
+@[simp] theorem postCommitPc_cLoop : postCommitPc .cLoop = false := rfl
+@[simp] theorem postCommitPc_cOnDisc : postCommitPc .cOnDisc = false := rfl
+@[simp] theorem postCommitPc_cExit : postCommitPc .cExit = false := rfl
+@[simp] theorem postCommitPc_done : postCommitPc .done = false := rfl
+@[simp] theorem postCommitPc_ite (c : Prop) [Decidable c] (a b : Pc) :
+    postCommitPc (if c then a else b) = if c then postCommitPc a else postCommitPc b := apply_ite postCommitPc c a b
+@[simp] theorem postCommitPc_unsubRetPc (k : Kind) : postCommitPc (unsubRetPc k) = false := by
+  cases k <;> rfl
+@[simp] theorem postCommitPc_afterRemove (c : Entry) : postCommitPc (afterRemove c) = false := by
+  unfold afterRemove; split <;> (try split) <;> rfl
+@[simp] theorem postCommitPc_afterCmdFail (t : Thread) : postCommitPc (afterCmdFail t) = false := by
+  unfold afterCmdFail; split <;> rfl
+@[simp] theorem postCommitPc_afterChecks (t : Thread) : postCommitPc (afterChecks t) = false := by
+  unfold afterChecks; split <;> (try split) <;> rfl
+@[simp] theorem postCommitPc_afterPres (t : Thread) : postCommitPc (afterPres t) = false := by
+  unfold afterPres; split <;> rfl
+
 end CentrifugeVerif.SubProto
